@@ -23,6 +23,8 @@ fn main() {
     let code = match args[1].as_str() {
         "reader-hist" => vh::reader_hist::run(&opts),
         "writer-hist" => vh::writer_hist::run(&opts),
+        "parsed" => vh::parsed_cases::run(&opts),
+        "scan-vectors" => vh::scan_vectors::run(&opts),
         other => {
             eprintln!("unknown subcommand {other}");
             2
